@@ -596,7 +596,7 @@ pub fn match_event(e: &Exec) -> Option<Call> {
     }
 }
 
-fn check_short_circuit(e: &Exec, out: &mut Vec<Violation>, inc: &mut Vec<String>) {
+fn check_short_circuit(e: &Exec, out: &mut Vec<Violation>, _inc: &mut Vec<String>) {
     let c = &e.case;
     if !c.term.is_short_circuit() || e.obs.is_err() {
         return;
@@ -608,12 +608,38 @@ fn check_short_circuit(e: &Exec, out: &mut Vec<Violation>, inc: &mut Vec<String>
         };
         if has_match {
             match c.mode {
-                Mode::S | Mode::Q => out.push(v(
+                // sequential: the lazy chain stops at the first match, whatever the schedule
+                Mode::Q => out.push(v(
                     "C10",
                     "endless-overrun",
-                    format!("a match exists but the computation kept consuming the endless source until the monitor's budget of {} elements ran out", c.budget),
+                    format!("a match exists but the sequential computation kept consuming the endless source until the monitor's budget of {} elements ran out", c.budget),
                 )),
-                Mode::F => inc.push("endless source: budget exhausted in free-running mode (re-run in mode S decides)".to_string()),
+                Mode::S => {
+                    // only consumption *after* the first matching evaluation counts: a schedule may park the thread
+                    // that holds the match for as long as it likes
+                    if let Some(m) = match_event(e) {
+                        let workers = e.events.iter().flat_map(|(_, _, v)| v.iter()).filter(|x| x.kind == K_WBEGIN).count() as u64;
+                        let chunk = match c.cs {
+                            Cs::Exact(x) | Cs::Min(x) => x as u64,
+                            Cs::Auto => 1,
+                        };
+                        let after: u64 = e
+                            .events
+                            .iter()
+                            .flat_map(|(_, _, v)| v.iter())
+                            .filter(|x| x.kind == K_PULL && x.a != PULL_END && x.seq > m.seq)
+                            .count() as u64;
+                        if after > 2 * chunk * workers.max(1) {
+                            out.push(v(
+                                "C10",
+                                "endless-overrun",
+                                format!("{} elements were pulled from the endless source after the first match was known (budget {} exhausted)", after, c.budget),
+                            ));
+                        }
+                    }
+                }
+                // free-running: the OS may delay the finder between its match and skip_to_end; mode S decides
+                Mode::F => {}
             }
         }
     }
